@@ -60,7 +60,9 @@ extern MPT_STRUCT(buffer) *mpt_array_reserve(MPT_STRUCT(array) *arr, size_t len,
 				used -= used % old->size;
 			}
 		}
-		if (!(reserve = _mpt_buffer_alloc(used > len ? used : len, 0))) {
+		/* new instance keeps the user flags, apart from immutability */
+		if (!(reserve = _mpt_buffer_alloc(used > len ? used : len,
+		                                  buf ? (flags & MPT_ENUM(BufferFlagsUser) & ~MPT_ENUM(BufferImmutable)) : 0))) {
 			return 0;
 		}
 		reserve->_content_traits = traits;
